@@ -84,6 +84,17 @@ def cases(tier, seed):
                "variant": "newest_only", "vseed": int(rng.integers(0, 2**31 - 1)), "strength": float(rng.uniform(0.2, 3.0)),
                "eps_SY": float(gen.pick(rng, [2.2e-16, 2.2e-16, 1e-3])), "rewrite": gen.pick(rng, ["new_deque", "same_deque", "same_arrays", "same_arrays"]),
                "undefined_at": None, "fd_step": None}
+    for i in range(300 if tier == "quick" else 9000):
+        # objectives in units of 1e-9 .. 1e-13 (gradient differences far below any absolute tolerance a shortcut might use), or a
+        # redefinition that changes the gradients in the sixth to eighth digit only, under thresholds at which the newest pair is often
+        # rejected in the very iteration of the rewrite
+        ps = gen.rand_spec(rng, ("qp", "qp_quartic"), nmax=8, nmin=2, boxes=("none", "mixed", "boxed", "lower"), starts=("interior", "face"), condmax=1e2)
+        faint = i % 3 == 2
+        yield {"kind": "switch", "problem": ps, "maxcor": int(rng.integers(2, 7)), "maxiter": int(rng.integers(6, 14)), "switch_at": int(rng.integers(2, 7)),
+               "variant": "faint" if faint else gen.pick(rng, ["indefinite", "newest_only", "newest_only", "reg"]), "vseed": int(rng.integers(0, 2**31 - 1)),
+               "strength": float(rng.uniform(0.3, 3.0)), "eps_SY": float(gen.pick(rng, [2.2e-16, 1e-2, 0.1, 0.3, 0.5])),
+               "rewrite": gen.pick(rng, ["new_deque", "same_deque", "same_arrays"]), "undefined_at": None, "fd_step": None,
+               "units": None if faint else float(10.0 ** -rng.uniform(9, 13))}
     nr = 200 if tier == "quick" else 8000
     for i in range(nr):
         ps = gen.rand_spec(rng, ("qp", "qp_quartic"), nmax=8, nmin=2, boxes=("none", "mixed", "boxed", "lower"),
@@ -102,7 +113,7 @@ def make_fB(P, spec):
         c = float(np.exp(rng.uniform(-2, 2)))
         return (lambda x: c * P.f(x)), (lambda x: c * P.g(x)), f"rescale c={c:.3g}"
     if spec["variant"] == "reg":
-        lam = float(np.exp(rng.uniform(-2, 3)))
+        lam = float(np.exp(rng.uniform(-2, 3))) * float(spec.get("units") or 1.0)
         return (lambda x: P.f(x) + 0.5 * lam * float(x @ x)), (lambda x: P.g(x) + lam * x), f"reg lambda={lam:.3g}"
     if spec["variant"] == "newest_only":
         # a concave term along the NEWEST step only, fixed at the moment of the switch (see arm_newest_only): the pair formed by the last
@@ -125,9 +136,12 @@ def make_fB(P, spec):
     Qm, _ = np.linalg.qr(rng.standard_normal((n, n)))
     eigs = np.linalg.eigvalsh(P.meta["A"])
     # sized relative to the typical curvature so that a sizeable fraction of the stored pairs loses curvature
-    ev = rng.standard_normal(n) * spec["strength"] * float(np.exp(np.mean(np.log(eigs))) + 1.0) * 0.5
+    ev = rng.standard_normal(n) * spec["strength"] * float(np.exp(np.mean(np.log(eigs))) + 1.0 * float(spec.get("units") or 1.0)) * 0.5
     Q = (Qm * ev) @ Qm.T
     Q = (Q + Q.T) / 2
+    if spec["variant"] == "faint":
+        Q = Q * float(10.0 ** -rng.uniform(6, 8))
+        return (lambda x: P.f(x) + 0.5 * float(x @ (Q @ x))), (lambda x: P.g(x) + Q @ x), "indefinite, in the sixth to eighth digit of the gradients"
     if spec["variant"] == "indefinite_skip0":
         # the new term does not involve the first variable (an intercept left out of a penalty): the first component of every gradient
         # is what it was
@@ -270,8 +284,21 @@ def switch_trace(spec, extra_cfg=None):
     return probes.run_min(S, cfg, hooks={"ufd": ufd})
 
 
+def in_units(P, u):
+    """the same problem with objective and gradient expressed in units of u"""
+    meta = dict(P.meta)
+    if "A" in meta:
+        meta["A"] = u * np.asarray(meta["A"])
+    return gen.Problem(dict(P.spec, units=u), P.n, (lambda x: u * P.f(x)), (lambda x: u * P.g(x)), P.lb, P.ub, P.x0, meta)
+
+
 def run_switch(spec, out):
     P0 = gen.make_problem(spec["problem"])
+    if spec.get("units"):
+        P0 = in_units(P0, float(spec["units"]))
+        out.count("switch_runs_in_units_of_1e-9_and_below")
+    if spec["variant"] == "faint":
+        out.count("switch_runs_changing_the_gradients_in_the_sixth_digit_and_beyond")
     fB, gB, desc = make_fB(P0, spec)
     S = Switched(P0, fB, gB)
     eps_sy = float(spec.get("eps_SY", 2.2e-16))
@@ -290,7 +317,7 @@ def run_switch(spec, out):
             return fB(np.array(x, copy=True)), fB(xo), gB(np.array(x, copy=True)), Gn
         return f0, f0_old, grad, G
 
-    cfg = dict(jac="callable", maxcor=spec["maxcor"], maxls=20, maxiter=spec["maxiter"], ftol=0.0, gtol=1e-10, cb="never", maxfun=10000,
+    cfg = dict(jac="callable", maxcor=spec["maxcor"], maxls=20, maxiter=spec["maxiter"], ftol=0.0, gtol=1e-10 * float(spec.get("units") or 1.0), cb="never", maxfun=10000,
                eps_SY=eps_sy)
     if spec.get("fd_step") is not None:
         cfg["eps"] = spec["fd_step"]  # differencing step: inert with a callable gradient, passed at a non-default value
